@@ -343,3 +343,6 @@ def _interval_history(env, cfg, ctx):
         else:
             env.claim('previous_values_returned_unchanged', set(ret.keys()) == set(prev.keys()) and
                       And(*[eq(ret[f], prev[f]) for f in prev]))
+
+
+META['explanation'] += ' Further groups: a storage object handed to the constructor is the explained window; fresh IntervalSage over 5-7 real calls under every pattern of forced calls.'
